@@ -163,7 +163,7 @@ def _gen_c15(res):
 
 
 def _c11_viol(res):
-    v = [dict(stage="ast", id=r["id"], what=r["what"], kind="rustc") for r in res["ast"]["c11"]]
+    v = [dict(stage="ast", id=r["id"], what=r["what"], kind="rustc", rustc=r.get("rustc")) for r in res["ast"]["c11"]]
     for r in res["codegen"]["rustc"]:
         v.append(dict(stage="codegen", id=r["id"], what=[["rustc_rejects_generated_code", e["file"], e["code"], e["msg"][:120]]
                                                           for e in r["errs"][:3]], kind="rustc"))
@@ -188,7 +188,10 @@ PROPS = {
     "C03": dict(stages=["tables", "glr", "mci_glr"],
                 viol=lambda res: _trace_viol(res, "glr", "c03") + _table_viol("C03")(res)
                 + _mci_viol(res, "mci_glr", "C03")),
-    "C07": dict(stages=["tables", "glr"], viol=lambda res: _trace_viol(res, "glr", "c07")),
+    "C07": dict(stages=["tables", "glr", "lex"],
+                viol=lambda res: _trace_viol(res, "glr", "c07")
+                + [dict(stage="lex", id=r["id"], iid=r["iid"], what=r["c07"][:4], kind="lex_c07")
+                   for r in res["lex"]["verdicts"] if r.get("c07")]),
     "C04": dict(stages=["tables", "mci_lr", "mc_automaton"],
                 viol=lambda res: _table_viol("C04")(res) + _mci_viol(res, "mci_lr", "C04")
                 + _mci_viol(res, "mc_automaton", "C04")),
@@ -254,41 +257,36 @@ def _lr_loop_by_disambiguation(v, ctx):
 
 
 def _rn_indirect_nullable_tail(v, ctx):
-    """Signature of C11-F1, a syntactic predicate on the grammar text of the case: some
-    production has a nullable tail (all symbols from some position >= 0 on nullable) that
-    contains a non-terminal WITHOUT an EMPTY alternative of its own (nullable only through
-    other rules), so its AST type is neither Option<..> nor Vec<..>."""
+    """Signature of C11-F1.  (1) what rustc objects to: only E0308 in the parser file (the
+    right-nulled arms of the generated builder), nothing in the actions file; (2) a
+    syntactic predicate on the grammar text of the case (repetition operators expanded):
+    some production has a nullable tail (all symbols from some position >= 0 on nullable)
+    that contains a non-terminal WITHOUT an EMPTY alternative of its own (nullable only
+    through other rules), so its AST type is neither Option<..> nor Vec<..>."""
+    errs = v.get("rustc") or []
+    if errs and not all(e["file"] == "g" and e["code"] == "E0308" for e in errs):
+        return False
     text = ctx.grammar(v["stage"], v["id"])
-    rules = {}
-    for line in text.split("terminals")[0].split(";"):
-        line = line.strip()
-        if ":" not in line or line.startswith("@"):
-            line = line.split("\n")[-1] if ":" in line else ""
-        if ":" not in line:
-            continue
-        name, body = line.split(":", 1)
-        name = name.split("{")[0].strip().split()[-1]
-        alts = []
-        for a in body.split("|"):
-            a = a.split("{")[0].strip()
-            alts.append([x for x in a.split() if x != "EMPTY"])
-        rules.setdefault(name, []).extend(alts)
-    nullable = set()
-    changed = True
-    while changed:
-        changed = False
-        for n, alts in rules.items():
-            if n not in nullable and any(all(x in nullable for x in a) for a in alts):
-                nullable.add(n)
-                changed = True
+    rules = G.read_rules(text)
+    nullable = G.nullable_of(rules)
     direct = {n for n, alts in rules.items() if any(len(a) == 0 for a in alts)}
+    vec_helpers = {n for n, alts in rules.items() if len(alts) == 2 and len(alts[0]) == 2 and alts[0][0] == n
+                   and alts[1] == alts[0][1:] and n.endswith("1")}
     for n, alts in rules.items():
         for a in alts:
             for d in range(0, len(a)):
                 tail = a[d:]
-                if all(x in nullable for x in tail) and any(x not in direct for x in tail):
+                if all(x in nullable for x in tail) and any(x not in direct and x not in vec_helpers for x in tail):
                     return True
     return False
+
+
+def _alias_cycle_only(v, ctx):
+    """Signature of C11-F2: rustc objects to nothing but recursive type aliases in the
+    generated actions file."""
+    errs = v.get("rustc") or []
+    return bool(errs) and all(e["file"] == "g_actions" and e["code"] == "E0391"
+                              and "expanding type alias" in e["msg"] for e in errs)
 
 
 def known_match(prop, v, ctx):
@@ -315,6 +313,9 @@ def known_match(prop, v, ctx):
         pred = sig.get("pred")
         if pred == "rn_indirect_nullable_tail":
             if not ("algo=glr" in v["id"] or "tt=rn" in v["id"]) or not _rn_indirect_nullable_tail(v, ctx):
+                continue
+        elif pred == "alias_cycle_only":
+            if not _alias_cycle_only(v, ctx):
                 continue
         elif pred == "lr_loop_by_disambiguation":
             if not _lr_loop_by_disambiguation(v, ctx):
